@@ -156,7 +156,8 @@ class Gen(object):
                 rd = self.reads(1, 2)
             if form in ('tuple', 'chain', 'star', 'tuplesub'):
                 b1, b2 = self.bind(), self.bind()
-                while b2[1] == b1[1]:
+                # mostly two different names; sometimes the SAME name twice (`a, a = p, q`, `a = a = v`: the last wins)
+                while b2[1] == b1[1] and (form in ('star', 'tuplesub') or self.rng.random() < 0.8):
                     b2 = (b2[0], self.rng.choice(self.names))
                 if form == 'tuplesub':
                     # x, g.s[<read>], y = ...: the subscript is evaluated after x is bound and before y is;
@@ -379,9 +380,9 @@ class Renderer(object):
 
     def tagged(self, binds, reads):
         """expression producing a fresh tagged object after evaluating the reads"""
-        tags = ', '.join('%s=%d' % (x, d) for d, x in binds)
+        tags = ', '.join('%r: %d' % (x, d) for d, x in binds)      # a dict display: the later of two equal names wins
         a = self.args(reads)
-        return '_b(dict(%s)%s)' % (tags, (', ' + a) if a else '')
+        return '_b({%s}%s)' % (tags, (', ' + a) if a else '')
 
     def tgt(self, d, x):
         return x if self.ins else mk('d', d, x)
